@@ -5,7 +5,7 @@ from .. import oracle as o
 ID = 'C15'
 RULE = ('field: straight-line programs over the public operators inside the operand discipline the crate itself uses (ref10 magnitude units: add/sub add the units of their operands and every consumer '
         '- mul, square, invert, pow, encoding, sign/zero tests, == - receives at most 3 units), every register compared with Python integers mod p (canonical bytes, sign, zero test, ==), inputs from boundary and limb-boundary '
-        'values, plus algebraic-identity programs that reach zero by different routes and result-directed programs x*(x^-1*T) whose product must encode as a target T with extreme limb patterns; scalars: wide reduction on 0, L-1, L, L+1, kL(+-1), every 2^k, sparse and dense patterns, '
+        'values, plus algebraic-identity programs that reach zero by different routes, result-directed programs x*(x^-1*T) whose product must encode as a target T with extreme limb patterns, square_and_double(sqrt(T)) for such T used as subtrahend / negated / doubled, and (64-bit backend) sums of up to 40 summands and 2^14-fold doublings before every consumer; scalars: wide reduction on 0, L-1, L, L+1, kL(+-1), every 2^k, sparse and dense patterns, '
         'canonical decoder on values around L and byte-reversed L; group: fixed-base multiplication for every single-nibble scalar and boundary scalars, double-scalar '
         'multiplication incl. every small odd b and 2^k-j, doubling/addition/conversion chains, decode(encode(P)), every precomputed table entry and every select() argument '
         '(through the read-only hook); distinct = (op family, shape/class)')
@@ -165,6 +165,28 @@ def result_directed_program(rng, T):
     return ['in.' + le32(x), 'in.' + le32(T), 'inv.0', 'mul.2.1', 'mul.0.3', 'mul.0.1', 'mul.5.2', 'eq.4.1', 'eq.6.1', 'eq.4.6', 'sub.4.6', 'sub.6.1', 'add.4.1']
 
 
+def fe_sqrt(t):
+    """a square root of t modulo p, or None (p = 5 mod 8)"""
+    t %= P
+    x = pow(t, (P + 3) // 8, P)
+    if (x * x - t) % P:
+        x = x * o.SQRTM1 % P
+    return None if (x * x - t) % P else x
+
+
+def sq2_directed_program(rng, T):
+    """x = sqrt(T): square_and_double(x) = 2T leaves the doubled limbs of a value with an extreme limb pattern (64-bit backend: uncarried);
+    it is then used as subtrahend, negated, added to itself and fed to every consumer"""
+    x = fe_sqrt(T)
+    if x is None:
+        return None
+    if rng.below(2):
+        x = P - x
+    # regs: 0 x, 1 zero, 2 one, 3 p-1, 4 sq2(x) = 2T, 5 sq(x) = T
+    return ['in.' + le32(x), 'in.' + le32(0), 'in.' + le32(1), 'in.' + le32(P - 1), 'sq2.0', 'sq.0', 'neg.4', 'sub.1.4', 'sub.2.4', 'sub.3.4', 'sub.4.2', 'sub.5.4', 'sub.4.5',
+            'add.4.4', 'neg.13', 'sub.1.13', 'add.5.5', 'eq.4.16', 'mul.4.2', 'eq.17.4', 'sq.4', 'sq2.4', 'sub.1.19', 'inv.4', 'mul.20.4' if False else 'mul.21.4']
+
+
 def single_nibble_scalars():
     for i in range(64):
         for v in range(1, 16):
@@ -190,6 +212,12 @@ def gen(tier, seed):
         yield 'fe %s #fe-result-directed' % ' '.join(result_directed_program(rng, T))
     for _ in range(2000 if thorough else 400):
         yield 'fe %s #fe-deep64' % ' '.join(deep_add_program(rng))
+    n = 0
+    for T in directed_targets(rng, 4000 if thorough else 900):
+        pr = sq2_directed_program(rng, T)
+        if pr:
+            yield 'fe %s #fe-sq2-directed' % ' '.join(pr)
+            n += 1
     for v in FE_INPUTS:
         yield 'fe in.%s in.%s sqn.0.0 sqn.1.0 sqn.2.1 sq.0 eq.2.0 eq.5.4 #fe-sqn0' % (le32(v), le32(rng.choice(FE_INPUTS)))
     for v in FE_INPUTS:
